@@ -665,6 +665,11 @@ func (c *SpecCtx) sortFromText(s string) (string, types.Type) {
 		t := types.NewSlice(types.Typ[types.Uint8])
 		return "Slice", t
 	}
+	if !strings.ContainsAny(s, "() ") {
+		if t := vc.lookupType(c.pkg, s); t != nil {
+			return vc.sortOf(t), t
+		}
+	}
 	return s, nil
 }
 
@@ -859,6 +864,23 @@ func (c *SpecCtx) call(e *ECall) (Term, error) {
 			return Term{}, err
 		}
 		return Term{fmt.Sprintf("(select (select %s %s) %s)", vc.get(c.state(), vc.mapIterComp(mt.Key())), it, k.S), "Bool", nil}, nil
+	case "msum":
+		// msum(m): the sum of the values of the keys visited so far by the iteration running over m
+		// (after the iteration: of all keys)
+		x, err := c.eval(e.Args[0])
+		if err != nil {
+			return Term{}, err
+		}
+		mt, ok := x.T.Underlying().(*types.Map)
+		if x.T == nil || !ok {
+			return Term{}, fmt.Errorf("msum of a non-map")
+		}
+		it, ok := mapIterByTerm[vc][typeKey(mt)]
+		if !ok {
+			return Term{}, fmt.Errorf("msum: no iteration over %s", exprString(e.Args[0]))
+		}
+		content := fmt.Sprintf("(select %s %s)", vc.get(c.state(), vc.mapComp(mt)), x.S)
+		return Term{fmt.Sprintf("(%s %s (select %s %s))", vc.msumFn(mt), content, vc.get(c.state(), vc.mapIterComp(mt.Key())), it), "Int", types.Typ[types.Int]}, nil
 	case "mlen":
 		x, err := c.eval(e.Args[0])
 		if err != nil {
